@@ -20,7 +20,7 @@ import (
 )
 
 func TestSim(t *testing.T) {
-	kernel.Main(t, kernel.Harness{Name: "c16", Horizon: 10 * time.Minute, Body: body})
+	kernel.Main(t, kernel.Harness{Name: "c16", Horizon: 1000 * time.Hour, Body: body})
 }
 
 type addRec struct {
@@ -48,7 +48,11 @@ func body(c *kernel.Ctx) {
 	nSlots := 1 + verifrt.Intn("cfg", 4)
 	nTypes := 1 + verifrt.Intn("cfg", len(types))
 	sameDeadline := verifrt.Intn("cfg", 3) == 2 // many duties share one deadline
-	span := 4 + verifrt.Intn("cfg", 40)          // deadlines fall in (0, span] ms
+	span := 4 + verifrt.Intn("cfg", 40)          // deadlines fall in (0, span] units
+	// Time scale: one unit is a millisecond in most runs; seconds, minutes and several minutes in the
+	// others (deadlines then lie up to hours ahead, as exit-epoch or far-future duties do).
+	unit := []time.Duration{time.Millisecond, time.Millisecond, time.Millisecond, time.Second, time.Minute, 7 * time.Minute}[verifrt.Intn("cfg", 6)]
+	c.Set("unit", unit.String())
 	var universe []core.Duty
 	deadline := map[core.Duty]time.Duration{}
 	exempt := map[core.Duty]bool{}
@@ -70,7 +74,7 @@ func body(c *kernel.Ctx) {
 					ms = 1 + verifrt.Intn("cfg", span)
 				}
 			}
-			deadline[d] = time.Duration(ms)*time.Millisecond + 500*time.Microsecond
+			deadline[d] = time.Duration(ms)*unit + unit/2
 		}
 	}
 	dfn := func(d core.Duty) (time.Time, bool) {
@@ -115,7 +119,7 @@ func body(c *kernel.Ctx) {
 			defer wg.Done()
 			for i := 0; i < nOps; i++ {
 				if d := verifrt.Intn("w", 6); d > 0 {
-					verifrt.Sleep(time.Duration(d) * time.Millisecond * time.Duration(1+span/12))
+					verifrt.Sleep(time.Duration(d) * unit * time.Duration(1+span/12))
 				}
 				d := universe[verifrt.Intn("w", len(universe))]
 				t0 := verifrt.Now()
@@ -131,13 +135,13 @@ func body(c *kernel.Ctx) {
 		// the deadliner's goroutine is not scheduled for a while (GC pause / starved thread): several
 		// deadlines pass at once and Adds wait for their status.
 		verifrt.Go(func() {
-			verifrt.Sleep(time.Duration(verifrt.Intn("f", span)) * time.Millisecond)
-			verifrt.Stall("dl", time.Duration(1+verifrt.Intn("f", span))*time.Millisecond)
+			verifrt.Sleep(time.Duration(verifrt.Intn("f", span)) * unit)
+			verifrt.Stall("dl", time.Duration(1+verifrt.Intn("f", span))*unit)
 		})
 	}
 	verifrt.WGWait(&wg)
 	// let every deadline pass, then quiesce
-	verifrt.Sleep(time.Duration(span+10)*time.Millisecond + time.Second)
+	verifrt.Sleep(time.Duration(2*span+10)*unit + time.Second) // covers the latest stall (starts within span, lasts up to span)
 
 	mu.Lock()
 	defer mu.Unlock()
